@@ -141,11 +141,14 @@ def selftest(ctx, recs):
     d = copy.deepcopy(base)                      # node lost
     d["obs"]["nodes"] = d["obs"]["nodes"][1:]
     bad.append(d)
+    e = copy.deepcopy(base)                      # per-node parentsWithoutIssuer emptied
+    e["obs"]["noissuer"] = []
+    bad.append(e)
     rej = gl.judge(ctx, "Trace_Graph", "Graph_judge.cfg", "graph_obs.ndjson", bad + [base], label="Trace_Graph self-test")
     got = sorted(i for i, _, _ in rej)
-    if got != [0, 1, 2, 3]:
-        raise Machinery("selftest: corrupted observations rejected = %s, expected exactly the 4 corrupted ones" % got)
-    ctx.note("binding self-test passed (4 corrupted observations rejected, the original accepted)")
+    if got != [0, 1, 2, 3, 4]:
+        raise Machinery("selftest: corrupted observations rejected = %s, expected exactly the 5 corrupted ones" % got)
+    ctx.note("binding self-test passed (5 corrupted observations rejected, the original accepted)")
 
 
 def replay(ctx, path):
